@@ -155,6 +155,9 @@ fn build_pipeline_upto(v: &Value, upto: Option<usize>) -> (Pipeline, Vec<Exec>) 
         } else if v["noisy"].as_bool().unwrap_or(false) && i == 0 {
             // writes more to its standard error than a pipe holds before it looks at its input
             Exec::cmd(vchild()).arg("@script").arg("we300000").arg("R").arg("x0")
+        } else if v["sip"].as_bool().unwrap_or(false) {
+            // every command copies its input through in 4 KiB units (cat-like): the input comes from the caller
+            Exec::cmd(vchild()).arg("@cat").arg(v["tags"][i].as_str().unwrap())
         } else if v["stream"].as_bool().unwrap_or(false) {
             // streaming stages: the first one generates a lot of data, the others copy it through as they read
             // (back-pressure like `yes | cat | ...`)
